@@ -40,7 +40,8 @@ let op_of_tok t =
   | _ -> failwith "badop"
 let fx_of_string s =
   let b i = s.[i] = '1' in
-  { fx_first_send = b 0; fx_throw_si_fresh = b 1; fx_close_ret = b 2; fx_si_at_yf = b 3 }
+  { fx_first_send = b 0; fx_throw_si_fresh = b 1; fx_close_ret = b 2; fx_si_at_yf = b 3;
+    fx_ag_fresh_del = (String.length s > 4 && b 4) }
 let rec rows_of = function
   | l :: c :: t :: a :: b :: rest -> { r_label = l; r_cls = c; r_tag = t; r_a = a; r_b = b } :: rows_of rest
   | [] -> []
